@@ -51,7 +51,21 @@ FIELD_KINDS = {
     "labels": ("map", "string", "string"), "bmap": ("map", "string", "message", "Book"), "imap": ("map", "int32", "string"),
     "opt": ("int32", "optional"), "choice_a": ("string", "oneof"), "choice_b": ("int32", "oneof"),
     "next": ("string",), "import": ("message", "Inner"), "retry": ("string",), "timeout": ("message", ".google.protobuf.Duration"),
+    # well-known types as LEAVES (proto-plus marshals them: datetime, timedelta, plain scalars, native JSON values)
+    "ts": ("message", ".google.protobuf.Timestamp"), "wrapped": ("message", ".google.protobuf.Int32Value"),
+    "swrap": ("message", ".google.protobuf.StringValue"), "bwrap": ("message", ".google.protobuf.BoolValue"),
+    "lv": ("message", ".google.protobuf.ListValue"), "tss": ("message", ".google.protobuf.Timestamp", "rep"),
+    "ttls": ("message", ".google.protobuf.Duration", "rep"), "vmap": ("map", "string", "message", ".google.protobuf.Value"),
+    "blobs": ("bytes", "rep"), "flags": ("bool", "rep"), "ratios": ("double", "rep"), "bigs": ("int64", "rep"),
+    "opt_s": ("string", "optional"), "opt_b": ("bool", "optional"), "opt_color": ("enum", "Color", "optional"),
+    "opt_book": ("message", "Book", "optional"), "choice_c": ("message", "Inner", "oneof"),
+    # raw protobuf messages of dependency packages inside a request of the API's own package (no marshal rule:
+    # `request.status` IS the protobuf object)
+    "status": ("message", ".google.rpc.Status"), "policy": ("message", ".google.iam.v1.Policy"),
+    "op": ("message", ".google.longrunning.Operation"),
 }
+RAW_FILES = {"status": "google/rpc/status.proto", "policy": "google/iam/v1/policy.proto", "op": "google/longrunning/operations.proto"}
+OPTIONALS = ("opt", "opt_s", "opt_b", "opt_color", "opt_book")
 # fixed helper messages: (name, kind…) in declaration order; numbers deliberately not ascending
 INNER_FIELDS = [("title", 4, "string"), ("count", 2, "int32"), ("marks", 7, "string", "rep"), ("class", 1, "string"),
                 ("flag", 9, "bool"), ("notes", 3, "map"), ("hue", 6, "enum"), ("blob", 5, "bytes"), ("big", 8, "int64"),
@@ -83,7 +97,15 @@ SUB_PATHS = {
     "inner": ["title", "count", "marks", "class", "notes", "hue", "blob", "big"],
     "any": ["title", "count", "class"],
     "import": ["title", "count", "marks", "class"],       # a keyword in NON-terminal position (§9-F2, repaired by a0434d5)
+    "opt_book": ["name", "pages"],
+    "choice_c": ["title"],
+    # paths INTO raw protobuf sub-messages: scalars work, repeated / message fields run into protobuf's assignment rules
+    "status": ["code", "message", "details"],
+    "policy": ["version", "etag", "bindings"],
+    "op": ["name", "done", "error"],
+    "mask": ["paths"],
 }
+RAW_RISKY = {"status.details", "policy.bindings", "op.error", "mask.paths", "book.mask.paths"}
 
 
 def gen_method(r: apigen.Rng, idx: int):
@@ -96,15 +118,19 @@ def gen_method(r: apigen.Rng, idx: int):
         names = ["parent"] + r.sample([n for n in FIELD_KINDS if n not in ("parent", "retry", "timeout")], r.randint(3, 9))
         if "choice_b" in names and "choice_a" not in names:
             names.append("choice_a")
-        if "opt" in names:                # synthetic oneofs (proto3 optional) come after the real ones, as protoc orders them
-            names.remove("opt"); names.append("opt")
-        numbers = r.sample(range(1, 40), len(names))
+        if "choice_c" in names and "choice_a" not in names:
+            names.append("choice_a")
+        for o in OPTIONALS:               # synthetic oneofs (proto3 optional) come after the real ones, as protoc orders them
+            if o in names:
+                names.remove(o); names.append(o)
+        numbers = r.sample(range(1, 60), len(names))
         m = {"name": f"Op{idx}", "dep": None, "fields": [[n, num] for n, num in zip(names, numbers)]}
         pool = []
         for n in names:
             pool.append(n)
             for sp in SUB_PATHS.get(n, []):
-                if r.maybe(0.5):
+                # (the paths known to run into protobuf's assignment rules are kept rare: they are replayed from the corpus)
+                if r.maybe(0.08 if f"{n}.{sp}" in RAW_RISKY else 0.5):
                     pool.append(f"{n}.{sp}")
     nsig = r.pick([0, 1, 1, 2, 2, 3])
     sigs, used_terminal, used_oneof = [], set(FIXED_PARAMS), False
@@ -129,9 +155,15 @@ def gen_method(r: apigen.Rng, idx: int):
             parts.append(p)
         sep = r.pick([",", ",", ", "])
         sigs.append(sep.join(parts))
-    if r.maybe(0.1):
-        sigs.append("")                   # the empty signature
+    if r.maybe(0.2) and chosen:
+        # AIP-4232 style overloads: every signature a prefix of the next one
+        k = r.randint(1, min(4, len(chosen)))
+        sigs = [",".join(chosen[:j]) for j in range(1, k + 1)]
+    if r.maybe(0.15):
+        sigs.insert(r.randint(0, len(sigs)), "")   # the empty signature, anywhere in the list
     m["sigs"] = sigs
+    if r.maybe(0.06):
+        m["cs"] = True                    # client-streaming: `requests` iterator, no flattened parameter at all
     return m
 
 
@@ -144,10 +176,12 @@ def gen_spec(r: apigen.Rng, nmethods=6):
 
 def _add(msg, name, number, kind, *extra, oneof=None):
     if kind == "map":
+        extra = [e for e in extra if e not in ("rep",)]
         if not extra:
             return msg.map_field(name, "string", "string", number)
         if extra[1] == "message":
-            return msg.map_field(name, extra[0], "message", number, vtype_name=f".{PKG}.{extra[2]}")
+            vt = extra[2] if extra[2].startswith(".") else f".{PKG}.{extra[2]}"
+            return msg.map_field(name, extra[0], "message", number, vtype_name=vt)
         return msg.map_field(name, extra[0], extra[1], number)
     rep = "rep" in extra
     optional = "optional" in extra
@@ -162,7 +196,8 @@ def _add(msg, name, number, kind, *extra, oneof=None):
 
 
 def build_files(spec):
-    deps = sorted({DEP_REQUESTS[m["dep"]][0] for m in spec["methods"] if m["dep"]})
+    deps = sorted({DEP_REQUESTS[m["dep"]][0] for m in spec["methods"] if m["dep"]} |
+                  {RAW_FILES[n] for m in spec["methods"] for n, _ in (m["fields"] or []) if n in RAW_FILES})
     f = apigen.File("acme/lib/v1/lib.proto", PKG).dep(*deps)
     f.enum("Color", ["COLOR_UNSPECIFIED", "RED", "BLUE"])
     inner = f.msg("Inner")
@@ -184,8 +219,60 @@ def build_files(spec):
                 kd = FIELD_KINDS[n]
                 _add(rq, n, num, kd[0], *kd[1:])
             inp = rq
-        svc.method(m["name"], inp, book, sigs=m["sigs"])
+        svc.method(m["name"], inp, book, sigs=m["sigs"], cs=bool(m.get("cs")))
     return [f]
+
+
+# ------------------------------------------------------------------------------------------------
+# valuations: proto-JSON with ONE deviation — a FieldMask is kept as {"paths": [...]} (its JSON form is a
+# comma-joined string) so that a signature path may go INTO it ("update_mask.paths")
+FM = "google.protobuf.FieldMask"
+
+
+def _conv(desc, d, leaf):
+    if not isinstance(d, dict):
+        return d
+    out = {}
+    for name, v in d.items():
+        fd = desc.fields_by_name.get(name)
+        if fd is None or fd.message_type is None:
+            out[name] = v
+            continue
+        mt = fd.message_type
+        if mt.GetOptions().map_entry:
+            vf = mt.fields_by_name["value"]
+            if vf.message_type is not None and isinstance(v, dict):
+                one = (lambda x, vf=vf: leaf(x) if vf.message_type.full_name == FM else _conv(vf.message_type, x, leaf))
+                out[name] = {k: one(x) for k, x in v.items()}
+            else:
+                out[name] = v
+        elif fd.label == fd.LABEL_REPEATED:
+            out[name] = [leaf(x) if mt.full_name == FM else _conv(mt, x, leaf) for x in v] if isinstance(v, list) else v
+        elif mt.full_name == FM:
+            out[name] = leaf(v)
+        elif mt.full_name in rpc.WKT_SAMPLES:
+            out[name] = v
+        else:
+            out[name] = _conv(mt, v, leaf)
+    return out
+
+
+def _fm_str(v):
+    return ",".join(v.get("paths", [])) if isinstance(v, dict) else v
+
+
+def _fm_dict(v):
+    return ({"paths": v.split(",")} if v else {}) if isinstance(v, str) else v
+
+
+class Codec5(rpc.Codec):
+    def encode(self, full, d):
+        desc = self.pool.FindMessageTypeByName(full.lstrip("."))
+        return super().encode(full, _conv(desc, d, _fm_str))
+
+    def decode(self, full, data):
+        desc = self.pool.FindMessageTypeByName(full.lstrip("."))
+        return _conv(desc, super().decode(full, data), _fm_dict)
 
 
 # ------------------------------------------------------------------------------------------------
@@ -275,13 +362,46 @@ def expected_params(codec, input_full, sigs, reserved, cross):
 # ------------------------------------------------------------------------------------------------
 # values
 
+MORE_SAMPLES = {
+    "google.protobuf.Value": ["x", 7, True, ["a", 1], {"k": 2}, 0, "", False],
+    "google.protobuf.ListValue": [["a"], [1, "b", True], [[1], {"k": "v"}]],
+    "google.protobuf.Struct": [{"k": "v"}, {"n": 1, "l": [1, 2], "s": {"t": True}}],
+    "google.protobuf.Timestamp": ["2020-01-02T03:04:05Z", "1999-12-31T23:59:59.500Z"],
+    "google.protobuf.Duration": ["1.500s", "3s", "86400s"],
+    "google.protobuf.Int32Value": [7, -1], "google.protobuf.StringValue": ["sv", "héllo"], "google.protobuf.BoolValue": [True],
+}
+# explicit defaults of fields WITH presence (proto3 optional, oneof members, messages): given, falsy AND visible on the wire
+PRESENT_DEFAULTS = {
+    "google.protobuf.Struct": {}, "google.protobuf.ListValue": [], "google.protobuf.Duration": "0s",
+    "google.protobuf.Timestamp": "1970-01-01T00:00:00Z", "google.protobuf.Int32Value": 0,
+    "google.protobuf.StringValue": "", "google.protobuf.BoolValue": False, FM: {},
+}
+
+
+def present_default(fd):
+    """the falsy value of a field with presence, or None when there is none that JSON can carry"""
+    if fd.label == fd.LABEL_REPEATED or not fd.has_presence:
+        return None
+    if fd.message_type is not None:
+        fn = fd.message_type.full_name
+        if fn in PRESENT_DEFAULTS:
+            return PRESENT_DEFAULTS[fn]
+        return {} if fn not in rpc.WKT_SAMPLES else None
+    if fd.enum_type is not None:
+        return fd.enum_type.values_by_number[0].name
+    return {fd.TYPE_STRING: "", fd.TYPE_BYTES: "", fd.TYPE_BOOL: False, fd.TYPE_DOUBLE: 0.0}.get(
+        fd.type, "0" if fd.type in (fd.TYPE_INT64, fd.TYPE_UINT64, fd.TYPE_SINT64, fd.TYPE_FIXED64, fd.TYPE_SFIXED64) else 0)
+
+
 def nondefault(r, codec, fd):
     """a value (proto-JSON form) that is not the default of the field, so that 'set' is visible on the wire"""
     def one():
         if fd.message_type is not None:
             fn = fd.message_type.full_name
+            if fn in MORE_SAMPLES:
+                return r.pick(MORE_SAMPLES[fn])
             v = rpc.rand_msg(r, codec, fn, depth=1, p_set=0.5)
-            return v
+            return _fm_dict(v) if fn == FM else v
         if fd.enum_type is not None:
             return r.pick([v.name for v in fd.enum_type.values if v.number != 0])
         for _ in range(50):
@@ -333,6 +453,11 @@ def gen_plan(r, codec, input_full, params, allow_overlap=True):
         if not allow_overlap and any(p.startswith(q + ".") or q.startswith(p + ".") for q in given + falsy):
             continue
         container = fd.label == fd.LABEL_REPEATED
+        pd = present_default(fd)
+        if pd is not None and r.maybe(0.15) and get_path(full, p) is None and "." not in p:
+            set_path(full, p, copy.deepcopy(pd))     # False / 0 / "" / enum 0 / empty message WITH presence: given and on the wire
+            given.append(p)
+            continue
         if r.maybe(0.12) and (container or ("." not in p and fd.message_type is None and not fd.has_presence)) and get_path(full, p) is None:
             falsy.append(p)            # passed as "", 0, [], {} — given for the exclusion check, invisible on the wire
             continue
@@ -352,7 +477,8 @@ def to_val(codec, desc, d):
             val = {"m": [[str(k), json.dumps(x, sort_keys=True)] for k, x in sorted(v.items())]}
         elif fd.label == fd.LABEL_REPEATED:
             val = {"l": [json.dumps(x, sort_keys=True) for x in v]}
-        elif fd.message_type is not None and isinstance(v, dict) and fd.message_type.full_name not in rpc.WKT_SAMPLES:
+        elif fd.message_type is not None and isinstance(v, dict) and \
+                (fd.message_type.full_name not in rpc.WKT_SAMPLES or fd.message_type.full_name == FM):
             val = to_val(codec, fd.message_type, v)
         else:
             val = {"a": json.dumps(v, sort_keys=True)}
@@ -392,6 +518,116 @@ def arg_val(codec, desc, full, path, chain):
 
 
 # ------------------------------------------------------------------------------------------------
+# literals a caller writes (tagged; rebuilt in the child by libhost_c05.untag) — NOT derived from bytes
+
+def _pb_py(desc):
+    """python location of a raw protobuf class"""
+    mod = desc.file.name[:-len(".proto")].replace("/", ".") + "_pb2"
+    return f"{mod}:{desc.full_name[len(desc.file.package) + 1:]}"
+
+
+def lit_single(r, fd, v, reserved, types_mod):
+    FD = type(fd)
+    if fd.message_type is not None:
+        mt = fd.message_type
+        fn = mt.full_name
+        if fn == "google.protobuf.Timestamp":
+            return {"t": "dt", "v": v}
+        if fn == "google.protobuf.Duration":
+            return {"t": "td", "v": v}
+        if fn in ("google.protobuf.Struct", "google.protobuf.Value", "google.protobuf.ListValue"):
+            return {"t": "json", "v": v}
+        if fn.startswith("google.protobuf.") and fn.endswith("Value"):          # wrappers: the plain scalar
+            inner = mt.fields_by_name["value"]
+            return lit_single(r, inner, v, reserved, types_mod)
+        if is_own(mt):
+            return lit_msg(r, mt, v, reserved, types_mod)
+        js = _fm_str(v) if fn == FM else _conv(mt, v, _fm_str)
+        return {"t": "pb", "py": _pb_py(mt), "json": js}
+    if fd.enum_type is not None:
+        num = fd.enum_type.values_by_name[v].number if isinstance(v, str) else int(v)
+        own = is_own_enum(fd.enum_type)
+        return {"t": "enum", "v": num, "py": f"{types_mod}:{fd.enum_type.name}" if own else None, "member": bool(own and r.maybe(0.5))}
+    if fd.type == fd.TYPE_BYTES:
+        return {"t": "bytes", "v": v}
+    if fd.type in (fd.TYPE_INT64, fd.TYPE_UINT64, fd.TYPE_SINT64, fd.TYPE_FIXED64, fd.TYPE_SFIXED64):
+        return {"t": "s", "v": int(v)}
+    if fd.type in (fd.TYPE_DOUBLE, fd.TYPE_FLOAT):
+        return {"t": "s", "v": float(v)}
+    return {"t": "s", "v": v}
+
+
+def is_own_enum(e):
+    return e.file.package == PKG
+
+
+def lit_field(r, fd, v, reserved, types_mod, in_request=False):
+    """tagged literal of the value `v` (valuation form) of field `fd`"""
+    if fd.message_type is not None and fd.message_type.GetOptions().map_entry:
+        kf, vf = fd.message_type.fields_by_name["key"], fd.message_type.fields_by_name["value"]
+        def key(k):
+            if kf.type == kf.TYPE_STRING:
+                return {"t": "s", "v": k}
+            if kf.type == kf.TYPE_BOOL:
+                return {"t": "s", "v": k == "true"}
+            return {"t": "s", "v": int(k)}
+        return {"t": "map", "v": [[key(k), lit_single(r, vf, x, reserved, types_mod)] for k, x in v.items()]}
+    if fd.label == fd.LABEL_REPEATED:
+        if in_request and fd.message_type is not None and fd.message_type.full_name == "google.protobuf.Value":
+            # proto-plus cannot build a message from native items of a repeated Value (the reason for the templates'
+            # `.extend` special case): inside a REQUEST the caller writes struct_pb2.Value objects
+            return {"t": "list", "v": [{"t": "pb", "py": "google.protobuf.struct_pb2:Value", "json": x} for x in v]}
+        return {"t": "list", "v": [lit_single(r, fd, x, reserved, types_mod) for x in v]}
+    return lit_single(r, fd, v, reserved, types_mod)
+
+
+def lit_msg(r, desc, d, reserved, types_mod):
+    """a generated proto-plus message written with keyword arguments (python field names)"""
+    fields = {}
+    for name, v in d.items():
+        fd = desc.fields_by_name[name]
+        fields[py_attr(desc, fd, reserved)] = lit_field(r, fd, v, reserved, types_mod, in_request=True)
+    return {"t": "own", "py": f"{types_mod}:{desc.name}", "fields": fields}
+
+
+def falsy_literal(fd):
+    """what a caller passes to say "empty": [] / {} / "" / 0 / False / b"" """
+    if fd.message_type is not None and fd.message_type.GetOptions().map_entry:
+        return {"t": "map", "v": []}
+    if fd.label == fd.LABEL_REPEATED:
+        return {"t": "list", "v": []}
+    if fd.enum_type is not None:
+        return {"t": "enum", "v": 0, "py": None, "member": False}
+    if fd.type == fd.TYPE_BYTES:
+        return {"t": "bytes", "v": ""}
+    return {"t": "s", "v": {fd.TYPE_STRING: "", fd.TYPE_BOOL: False, fd.TYPE_DOUBLE: 0.0}.get(fd.type, 0)}
+
+
+def lit_request(r, codec, input_full, full, reserved, types_mod):
+    desc = codec.pool.FindMessageTypeByName(input_full)
+    if is_own(desc):
+        return lit_msg(r, desc, full, reserved, types_mod)
+    return {"t": "pb", "py": _pb_py(desc), "json": _conv(desc, full, _fm_str)}
+
+
+# ------------------------------------------------------------------------------------------------
+
+def raw_keys(want, cross):
+    """flattened keys of a same-package request whose LAST field is owned by a raw protobuf message:
+    (repeated/map ones, singular-message ones) — protobuf refuses `owner.field = x` for both kinds"""
+    rep_, msg_ = [], []
+    if cross:
+        return rep_, msg_
+    for (p, param, attr, ch) in want or []:
+        owner, fd = ch[-1]
+        if is_own(owner):
+            continue
+        if fd.label == fd.LABEL_REPEATED:
+            rep_.append(p)
+        elif fd.message_type is not None:
+            msg_.append(p)
+    return rep_, msg_
+
 
 def shape_flags(codec, input_full, sigs, reserved, cross):
     """which excluded shapes (points where the real code is known to leave the statement) a method has"""
@@ -429,7 +665,13 @@ def classify(kind, flags, plan=None, msg=""):
     if kind == "import-failed" and "dup-param" in flags and "duplicate argument" in msg:
         return "duplicate-parameter-name:syntaxerror"
     if plan is not None:
-        given, falsy = plan
+        given, falsy = plan[0], plan[1]
+        rawrep, rawmsg = plan[2] if len(plan) > 2 else ([], [])
+        if "Assignment not allowed" in msg:
+            if kind in ("sync-kwargs-raised", "async-kwargs-raised", "sync-async") and any(p in rawmsg for p in given):
+                return "raw-owner-message:assign-attributeerror"
+            if kind in ("sync-kwargs-raised", "sync-async") and any(p in rawrep for p in given + falsy):
+                return "raw-owner-repeated:sync-assign-attributeerror"
         if kind in ("async-kwargs-raised", "sync-async") and "cross-dotted" in flags and "has no" in msg:
             return "async-cross-package-dotted-key:ctor-valueerror"
         if kind in ("async-kwargs-vs-request", "sync-async") and overlapping(given):
@@ -445,13 +687,14 @@ def run_api(ctx, r, spec, label, plans=None, expect_flags=False):
     reserved = statement_reserved()
     files = build_files(spec)
     req = apigen.request(files, "transport=grpc,autogen-snippets=false")
-    codec = rpc.Codec(files)
+    codec = Codec5(files)
     info = {}
     for m in spec["methods"]:
         input_full = (m["dep"] or f".{PKG}.{m['name']}Request").lstrip(".")
         cross = bool(m["dep"])
+        want = expected_params(codec, input_full, m["sigs"], reserved, cross)
         info[m["name"]] = dict(input=input_full, cross=cross, flags=shape_flags(codec, input_full, m["sigs"], reserved, cross),
-                               want=expected_params(codec, input_full, m["sigs"], reserved, cross))
+                               want=want, cs=bool(m.get("cs")), raw=raw_keys(want, cross))
     allflags = set().union(*[i["flags"] for i in info.values()]) if info else set()
     payload0 = {"spec": spec}
     # ------------------------------------------------------------------ T2: schema side
@@ -463,7 +706,7 @@ def run_api(ctx, r, spec, label, plans=None, expect_flags=False):
         build_err = (genrun.crash_signature(e), str(e)[:200])
     schema = schema_json(codec, [i["input"] for i in info.values()])
     mops = [{"op": "c05.mapping", "schema": schema, "input": info[m["name"]]["input"], "cross_pkg": info[m["name"]]["cross"],
-             "sigs": m["sigs"]} for m in spec["methods"]]
+             "sigs": m["sigs"], "client_streaming": bool(m.get("cs"))} for m in spec["methods"]]
     mres = ctx.driver.ask(mops)
     model = {m["name"]: mo for m, mo in zip(spec["methods"], mres)}
     for m in spec["methods"]:
@@ -496,6 +739,8 @@ def run_api(ctx, r, spec, label, plans=None, expect_flags=False):
             ctx.count("key_shape", ("dotted" if "." in e["key"] else "top") + ":" +
                       ("map" if e["map"] else "repeated" if e["repeated"] else "singular"))
         # oracle: the mapping offers the declared fields in declared order (generator side)
+        if m.get("cs"):
+            ctx.count("client_streaming", "method")
         if inf["want"] is not None and [w[1] for w in inf["want"]] != impl["params"] and not (inf["flags"] & {"cross-reserved"}):
             ctx.fail(classify("parameter-order", inf["flags"]), f"{m['name']}: flattened parameters {impl['params']}, declared {[w[1] for w in inf['want']]}", payload0)
     # ------------------------------------------------------------------ T3
@@ -522,7 +767,8 @@ def run_api(ctx, r, spec, label, plans=None, expect_flags=False):
         emit_bad = [n for n, e in model_emit.items() if e != "ok"]
         # which methods can be called at all
         ops = [{"op": "import_all", "package": loc["service_module"]}]
-        callable_methods = [m for m in spec["methods"] if info[m["name"]]["want"]]
+        callable_methods = [m for m in spec["methods"] if info[m["name"]]["want"] and not info[m["name"]]["cs"]]
+        types_mod = loc["package"] + ".types"
         for m in spec["methods"]:
             for cl in ("client", "async_client"):
                 mod, cls = loc[cl].split(":")
@@ -541,18 +787,35 @@ def run_api(ctx, r, spec, label, plans=None, expect_flags=False):
                     if not keys:
                         continue
                     b64 = codec.encode_b64(inf["input"], full)
-                    base = {"method": gu.to_snake_case(m["name"]), "py_request": rpc.py_type(meth.input), "request_b64": b64,
+                    mname = gu.to_snake_case(m["name"])
+                    base = {"method": mname, "py_request": rpc.py_type(meth.input), "request_b64": b64,
                             "plain_containers": r.maybe(0.7)}
                     kw = [[bypath[p][1], bypath[p][2]] for p in keys]
                     mixed_key = r.pick(keys)
-                    calls.append(dict(base, mode="kwargs", kwargs=kw))
-                    # (proto-plus to_dict renders int map keys as text and Value items as bare python values: such a dict is not a valid request dict)
-                    dict_ok = not inf["cross"] and not any(f[0] in ("imap", "vals", "val", "meta") for f in (m["fields"] or []))
-                    calls.append(dict(base, mode=r.pick(["request-instance", "request-dict"]) if dict_ok else "request-instance"))
-                    calls.append(dict(base, mode="mixed", kwargs=[[bypath[mixed_key][1], bypath[mixed_key][2]]]))
+                    literal = r.maybe(0.75)
+                    ctx.count("argument_source", "literal" if literal else "derived-from-bytes")
+                    if literal:
+                        # what a caller writes: python literals / objects for every argument, the request built with
+                        # keyword arguments, as a hand-written dict, or passed positionally; every call run twice
+                        def lit_kw(p):
+                            owner, fd = bypath[p][3][-1]
+                            v = get_path(full, p)
+                            return [bypath[p][1], falsy_literal(fd) if v is None else lit_field(r, fd, v, reserved, types_mod)]
+                        rq = lit_request(r, codec, inf["input"], full, reserved, types_mod)
+                        form = r.pick(["instance", "dict", "positional"]) if not inf["cross"] else r.pick(["instance", "positional"])
+                        calls.append({"method": mname, "kwargs": [lit_kw(p) for p in keys], "repeat": 2})
+                        calls.append({"method": mname, "request": rq, "request_form": form, "repeat": 2})
+                        calls.append({"method": mname, "request": rq, "request_form": r.pick(["instance", "dict"]) if not inf["cross"] else "instance",
+                                      "kwargs": [lit_kw(mixed_key)]})
+                    else:
+                        calls.append(dict(base, mode="kwargs", kwargs=kw))
+                        # (proto-plus to_dict renders int map keys as text and Value items as bare python values: such a dict is not a valid request dict)
+                        dict_ok = not inf["cross"] and not any(f[0] in ("imap", "vals", "val", "meta", "vmap", "lv", "bigs", "big", "ubig") for f in (m["fields"] or []))
+                        calls.append(dict(base, mode=r.pick(["request-instance", "request-dict"]) if dict_ok else "request-instance"))
+                        calls.append(dict(base, mode="mixed", kwargs=[[bypath[mixed_key][1], bypath[mixed_key][2]]]))
                     index.append((m, given, falsy, full, keys, mixed_key))
         for asy in (False, True):
-            ops.append({"op": "grpc_session", "client": loc["async_client" if asy else "client"],
+            ops.append({"op": "c05_session", "client": loc["async_client" if asy else "client"],
                         "transport": loc["grpc_asyncio" if asy else "grpc"], "async": asy, "calls": calls})
         out = libhost.run(root, ops, timeout=600)
         imp = out[0]
@@ -580,6 +843,13 @@ def run_api(ctx, r, spec, label, plans=None, expect_flags=False):
                     ctx.fail("signature-unavailable", f"{m['name']} ({cl}): {so}", payload0)
                     continue
                 names = [p[0] for p in so["params"]]
+                if inf["cs"]:
+                    ctx.traces += 1
+                    if names != ["self", "requests", "retry", "timeout", "metadata"]:
+                        ctx.fail("client-streaming-signature", f"{m['name']} ({cl}): client-streaming method has parameters {names}", {"spec": {"methods": [m]}})
+                    if names != model[m["name"]]["param_list"]:
+                        ctx.disagree("T3:c05.param_list", f"{m['name']} ({cl}): emitted {names} vs model {model[m['name']]['param_list']}", payload0)
+                    continue
                 got = names[2:-3] if names[:2] == ["self", "request"] else names
                 kinds_ok = all(p[1] == "KEYWORD_ONLY" and p[2] == "None" for p in so["params"][2:-3])
                 want = [w[1] for w in (inf["want"] or [])]
@@ -602,7 +872,8 @@ def run_api(ctx, r, spec, label, plans=None, expect_flags=False):
             entry_by_param = {e["param"]: e for e in mo["entries"]}
             slots, args_kw, args_mixed = [], [], []
             for e in mo["entries"]:
-                slots.append({"path": e["path"], "repeated": e["repeated"], "map": e["map"], "value": e["value"], "ctor": e["ctor"]})
+                slots.append({"path": e["path"], "repeated": e["repeated"], "map": e["map"], "value": e["value"], "ctor": e["ctor"],
+                              "raw_owner": e["raw_owner"], "is_msg": e["is_msg"]})
                 # which declared path does this entry serve?  (matched by parameter name: that is how the caller addresses it)
                 p = next((p for p in keys if bypath[p][1] == e["param"]), None)
                 args_kw.append(arg_val(codec, desc, full, p, bypath[p][3]) if p else None)
@@ -623,7 +894,7 @@ def run_api(ctx, r, spec, label, plans=None, expect_flags=False):
         for i, (m, given, falsy, full, keys, mixed_key) in enumerate(index):
             inf = info[m["name"]]
             desc = codec.pool.FindMessageTypeByName(inf["input"])
-            plan = (given, falsy)
+            plan = (given, falsy, inf["raw"])
             pl = {"spec": {"methods": [m]}, "plans": {m["name"]: [[given, falsy, full]]}}
             ctx.count("args_given", len(keys)); ctx.count("falsy_args", len(falsy))
             ctx.count("overlap", overlapping(given))
@@ -636,6 +907,8 @@ def run_api(ctx, r, spec, label, plans=None, expect_flags=False):
                          distinct_key=["call", inf["input"], json.dumps(m["sigs"]), json.dumps(keys), json.dumps(full, sort_keys=True), cl])
 
                 def wire(c):
+                    if "build_error" in c:
+                        raise RuntimeError(f"harness could not build the literal arguments: {c['build_error']}: {c['msg']} {c['trace'][-300:]}")
                     if "ok" not in c:
                         return ("raised", c.get("raised"), c.get("msg", "")[:160], len(c["server"]))
                     if len(c["server"]) != 1 or len(c["server"][0]["requests"]) != 1:
@@ -648,6 +921,16 @@ def run_api(ctx, r, spec, label, plans=None, expect_flags=False):
                     return ("raised", x["raised"])
                 wk, wr, wm = wire(kwc), wire(rqc), wire(mxc)
                 seen[asy] = wk
+                # oracle 0: the same call with the same argument objects sends the same request again
+                for what, c in (("kwargs", kwc), ("request", rqc)):
+                    runs = c.get("runs") or []
+                    if len(runs) > 1:
+                        first = [x["requests"] for x in runs[0]["server"]]
+                        for k2, x in enumerate(runs[1:], 2):
+                            if [y["requests"] for y in x["server"]] != first or x["raised"] != runs[0]["raised"]:
+                                ctx.fail(f"{cl}-second-call-differs", f"{m['name']} ({cl}) {what} call #{k2} with the same argument objects: "
+                                         f"{x['raised'] or [codec.decode(inf['input'], q) for y in x['server'] for q in y['requests']]} "
+                                         f"after {runs[0]['raised'] or [codec.decode(inf['input'], q) for y in runs[0]['server'] for q in y['requests']]}", pl)
                 want_req = ("sent", full)
                 # oracle 1: the request call sends the request
                 if wr != want_req:
@@ -689,7 +972,7 @@ def t2_paths(ctx, r):
         m["sigs"] = []
     files = build_files(spec)
     req = apigen.request(files, "transport=grpc,autogen-snippets=false")
-    codec = rpc.Codec(files)
+    codec = Codec5(files)
     api, _ = genrun.build_api(req)
     svc = api.services[f"{PKG}.Library"]
     ops, cases = [], []
